@@ -27,6 +27,19 @@ func sealChunk(key []byte, ctr uint64, last bool, pt []byte) []byte {
 	return a.Seal(nil, nonce, pt, nil)
 }
 
+// canonEncrypt: THE payload for pt under key, written with nothing but the AEAD (chunks of C bytes under
+// counters 0, 1, …, the final flag on the last one; one empty final chunk for the empty plaintext)
+func canonEncrypt(key, pt []byte) []byte {
+	var out []byte
+	for i := uint64(0); ; i++ {
+		if len(pt) <= C {
+			return append(out, sealChunk(key, i, true, pt)...)
+		}
+		out = append(out, sealChunk(key, i, false, pt[:C])...)
+		pt = pt[C:]
+	}
+}
+
 func runC02(cx *ctx) {
 	r := cx.rng
 	// the chunk counter beyond its lowest byte: 257 chunks (16 MiB), byte-exact against the Lean reference
@@ -152,6 +165,8 @@ func runC02(cx *ctx) {
 			{"keyed-other-flag", func(pos int) []byte { return sealChunk(key, uint64(pos), true, chunksPT[1]) }, true},
 			{"keyed-short", func(pos int) []byte { return sealChunk(key, uint64(pos), false, chunksPT[0][:10]) }, true},
 			{"keyed-empty-last", func(pos int) []byte { return sealChunk(key, uint64(pos), true, nil) }, true},
+			{"keyed-own-reflagged", func(pos int) []byte { return sealChunk(key, uint64(pos), true, chunksPT[pos%2]) }, true},
+			{"keyed-next-final", func(pos int) []byte { return sealChunk(key, uint64(pos), true, chunksPT[2]) }, true},
 		}
 		maxLen := cx.n(2, 3)
 		var rec func(seq []int)
